@@ -457,7 +457,7 @@ int main(int argc, char **argv)
     /* leg "orders": plan = list of len:kinds:lo ; lo (histories of length <= lo were covered by an earlier, complete entry) */
     if (!only || !strcmp(only, "orders")) {
         char pl[256]; snprintf(pl, sizeof(pl), "%s", plan); int all_exh = 1;
-        if (full_deadline > 0 && (!only || strcmp(only, "orders"))) wr_deadline = full_deadline - 0.2 * (full_deadline - wr_now());   /* keep 20% for the threads leg */
+        if (full_deadline > 0 && (!only || strcmp(only, "orders"))) wr_deadline = full_deadline - 0.3 * (full_deadline - wr_now());   /* keep 30% for the threads leg */
         for (char *t = strtok(pl, ","); t; t = strtok(NULL, ",")) {
             int n = 0, lo = 0; static char kd[8][8]; static int ki = 0; char *k = kd[ki++ % 8];
             if (sscanf(t, "%d:%7[a-d]:%d", &n, k, &lo) < 2) { fprintf(stderr, "bad plan entry %s\n", t); return 2; }
@@ -471,7 +471,7 @@ int main(int argc, char **argv)
         }
     }
     /* free-running configuration box (a reserved share of the time budget) */
-    wr_deadline = full_deadline;
+    wr_deadline = full_deadline; if (full_deadline > 0 && full_deadline < wr_now() + 15) wr_deadline = wr_now() + 15;   /* the box always gets a minimum share */
     if (!only || !strcmp(only, "threads")) { leg_arg_t la = { Nfree, 0, kinds, 0, NULL, reps }; wr_run_legs("threads", 9, leg_threads, &la, 240, aux); }
     return wr_finish();
 }
